@@ -5392,6 +5392,8 @@ def unfold_part_alignment(part, alignment):
 
     if len(best_idx) > 1:
         best_idx = best_idx[unfolded_part_length[best_idx].argmin()]
+    else:
+        best_idx = best_idx[0]
 
     # append "-1" to alignment if the score_id's in alignment
     if not any(["-1" in al.get("score_id", "") for al in alignment]):
